@@ -54,6 +54,7 @@ func checkC02(c *Ctx) {
 	r.Rule("C02.d", "result annotation feeds the function's own type (declared and returned)", 2)
 	r.Rule("C02.f", "each record/union instance is handled once per traversal and correctly: instance keys; a never-cleared visited set only where a repeated instance contributes the empty list; memo tables follow the placeholder discipline (hit returns the stored value, miss stores the input first and its result last)", 15)
 	r.Import("C15.", "C02.g", "the inferred types are printed by the documented type mapping (the C15 conditions: base-type table, printer templates, grammar of annotations)", 20, func() { checkC15(c) })
+	r.Rule("C02.a2", "the type-variable collector and the substitution visit the same components of every FType constructor (payload fields carrying types, unfolding through the info table)", 5)
 	r.Rule("C02.e", "no unification obligation is dropped: every call result carrying a []UniRel is bound, returned or passed on", 40)
 	f := c.LoadFC("fc")
 	if f == nil {
@@ -139,6 +140,8 @@ func checkC02(c *Ctx) {
 	checkRelationsNotDropped(c, f)
 	// (f)
 	checkGuardDiscipline(c, f)
+	// (a2)
+	checkSiblingComponents(c, f)
 	// (b)
 	tv := newTravAn(c, f)
 	tv.checkTraversal("C02.b", "collectExprRel", []string{"collectBlock", "collectStmtRel", "collectSlice"}, 6)
